@@ -63,8 +63,11 @@ def run_unit(u):
             key = "C05:not-restored:%s" % lc.field
             return ok, key, "persisted quantity %s is not restored bit-for-bit: %s" % (lc.label, detail), dict(cfg=cfgname, n=n, label=lc.label, field=lc.field, recipe=list(lc.recipe), bits=lc.ty.size() * 8, kind=lc.ty.kind, value=val)
         return on_sat
+    # the save may shrink an array to the part the integrator uses (IAS15 after the particle number dropped): only what is still a
+    # persisted location of the ORIGINAL after the save is compared
+    live = {lc_.label for lc_ in P.locations(I, sim, tab, opts)}
     for lc in locs:
-        if lc.label not in sy: continue
+        if lc.label not in sy or lc.label not in live: continue
         _, orig, is_sym = sy[lc.label]
         p1 = lc.ptr(I, sim)
         # reference = the original simulation *after* the save (saving refreshes derived caches such as ri_sei.sindt in
@@ -248,6 +251,9 @@ def concrete_twin(u):
         f(ns.addr, fn)
         g = nat().lib.reb_simulation_create_from_file; g.argtypes = [ctypes.c_char_p, ctypes.c_int64]; g.restype = ctypes.c_void_p
         ns2 = NSim(nat(), g(fn, 0))
+        if cfg.get('twin_add'):
+            # the same particle is added to the original and to the restored simulation before they continue
+            for s_ in (ns, ns2): s_.add(m=2e-4, x=3.1, y=0.2, z=0.01, vy=0.55, r=0.001)
         for _ in range(u.get('steps', 3)):
             ns.call('reb_simulation_step'); ns2.call('reb_simulation_step')
         a = ns.pvals(('x', 'y', 'z', 'vx', 'vy', 'vz', 'm')); b = ns2.pvals(('x', 'y', 'z', 'vx', 'vy', 'vz', 'm'))
